@@ -511,6 +511,8 @@ def run(an: Analysis, rep):
     rep.rule("R09.4", "additional args collected for all tables, each wrapped in its table's class", 4)
     from .common import purity
     rep.run(purity, an, rep, "R09.P", ["from_code"])
+    from .common import identity_rule
+    rep.run(identity_rule, an, rep, "R09.I", ["from_code"])
     rep.run(table_sequences_rule, an, rep)
     f, ifst, assign, mapattr, idx = find_rank_site(an)
     self_ = f.params[0]
